@@ -3167,3 +3167,100 @@ func runProjectionPrefix(c *Ctx, rule string) {
 		c.Undecided(rule, "runtime/vcache.insertPath", "no descent below a common head found")
 	}
 }
+
+// ---- C03-U1: every vector kind that can hold nulls honours them when it is materialized.
+func runSerializeHonoursNulls(c *Ctx, rule string) {
+	p := c.P
+	c.Rule(rule, "sibling agreement among the vector kinds: every type of package vector that has a Nulls field reads it in its Serialize method (the vector cache stores the values of a nullable column densely, so a Serialize that ignores Nulls indexes the dense storage with a sparse slot number)")
+	pk := p.Pkgs["vector"]
+	if pk == nil {
+		c.Undecided(rule, "package vector", "not loaded")
+		return
+	}
+	n := 0
+	sc := pk.Types.Scope()
+	for _, name := range sc.Names() {
+		tn, ok := sc.Lookup(name).(*types.TypeName)
+		if !ok {
+			continue
+		}
+		st, ok := tn.Type().Underlying().(*types.Struct)
+		if !ok {
+			continue
+		}
+		hasNulls := false
+		for i := 0; i < st.NumFields(); i++ {
+			if st.Field(i).Name() == "Nulls" {
+				hasNulls = true
+			}
+		}
+		if !hasNulls {
+			continue
+		}
+		fn := p.Func("(*vector." + name + ").Serialize")
+		if fn == nil {
+			continue
+		}
+		n++
+		reads := false
+		fns := map[*ssa.Function]bool{fn: true}
+		for g := range reachableStatic([]*ssa.Function{fn}, func(g *ssa.Function) bool {
+			return p.PkgOf(g) == "vector" && g.Signature.Recv() != nil && namedOf(g.Signature.Recv().Type()) == "vector."+name
+		}) {
+			fns[g] = true
+		}
+		for g := range fns {
+			for _, b := range g.Blocks {
+				for _, in := range b.Instrs {
+					if fa, ok := in.(*ssa.FieldAddr); ok && fieldName(fa.X.Type(), fa.Field) == "Nulls" {
+						reads = true
+					}
+				}
+			}
+		}
+		construct := "(*vector." + name + ").Serialize"
+		if reads {
+			c.OK(rule, construct, fn.Pos(), "reads Nulls")
+		} else {
+			c.Fail(rule, construct, fn.Pos(), "this vector kind has a Nulls mask but its Serialize never looks at it: for a nullable column the slot number is used on storage that only holds the non-null values, so materializing it panics (index out of range) or returns the value of another row")
+		}
+	}
+	if n < 8 {
+		c.Undecided(rule, "package vector", "fewer than 8 nullable vector kinds with a Serialize method found ("+sprint(n)+")")
+	}
+}
+
+// ---- C03-D1: the dictionary order is a function of the dictionary's contents.
+func runDictOrderTotal(c *Ctx, rule string) {
+	p := c.P
+	c.Rule(rule, "the order of a column's dictionary is the same every time it is computed: the less function of vng.sortDict falls back to comparing the entries' bytes when the value comparator ties (the dictionary is sorted once for the selectors and once for the metadata, each time from a randomly ordered map)")
+	fn := p.Func("vng.sortDict")
+	if fn == nil || len(fn.AnonFuncs) == 0 {
+		c.Undecided(rule, "vng.sortDict", "anchor does not resolve")
+		return
+	}
+	less := fn.AnonFuncs[0]
+	ok := false
+	for _, b := range less.Blocks {
+		ret, isR := b.Instrs[len(b.Instrs)-1].(*ssa.Return)
+		if !isR || len(ret.Results) != 1 {
+			continue
+		}
+		if dependsOn(ret.Results[0], func(v ssa.Value) bool {
+			call, isC := v.(*ssa.Call)
+			return isC && (calleeName(&call.Call) == "bytes.Compare" || calleeName(&call.Call) == "bytes.Equal")
+		}) {
+			ok = true
+		}
+	}
+	// alternatively the dictionary is computed once: makeDict has a single caller
+	single := len(callSitesWhere(p, func(_ *ssa.CallCommon, name string) bool { return name == "(*vng.PrimitiveEncoder).makeDict" })) <= 1
+	switch {
+	case ok:
+		c.OK(rule, "vng.sortDict less function", less.Pos(), "ties of the value comparator are broken by the entries' bytes")
+	case single:
+		c.OK(rule, "vng.sortDict less function", less.Pos(), "the dictionary is computed once")
+	default:
+		c.Fail(rule, "vng.sortDict less function", less.Pos(), "the dictionary is sorted more than once with a comparator that can tie for distinct entries (0. and -0.), starting from a randomly ordered map: the selectors and the dictionary stored in the metadata can be in different orders, and the tied values come back swapped")
+	}
+}
